@@ -388,9 +388,14 @@ pub fn values(ex: &Ex) -> Vec<RVal> {
     // reuses work between neighbouring or equal elements must still write each element's own bytes
     {
         let pats: [&[usize]; 5] = [&[0, 1, 0], &[0, 1, 1], &[0, 0, 1], &[0, 1, 2, 0], &[1, 2, 2, 1]];
+        // three elements with different *built*, non-empty protected headers
+        let built = |h: RHeader| RProtected { original: None, header: h };
+        let hs = [RHeader { alg: Some(l_int(-7)), ..Default::default() }, RHeader { key_id: b"b".to_vec(), ..Default::default() }, RHeader { alg: Some(l_int(-8)), key_id: b"c".to_vec(), ..Default::default() }];
         for pat in pats {
-            let sl: Vec<RSignature> = pat.iter().map(|k| sigs[*k].clone()).collect();
-            let rl: Vec<RRecipient> = pat.iter().map(|k| recs[*k].clone()).collect();
+            let sl: Vec<RSignature> = pat.iter().map(|k| RSignature { protected: built(hs[*k].clone()), unprotected: RHeader::default(), signature: vec![*k as u8] }).collect();
+            let rl: Vec<RRecipient> = pat.iter().map(|k| RRecipient { protected: built(hs[*k].clone()), unprotected: RHeader::default(), ciphertext: Some(vec![*k as u8]), recipients: vec![] }).collect();
+            v.push(RVal::Recipient(RRecipient { protected: prot[0].clone(), unprotected: hdrs[0].clone(), ciphertext: None, recipients: pat.iter().map(|k| recs[*k].clone()).collect() }));
+            v.push(RVal::Sign(RSign { protected: prot[0].clone(), unprotected: hdrs[0].clone(), payload: None, signatures: pat.iter().map(|k| sigs[*k].clone()).collect() }));
             v.push(RVal::Sign(RSign { protected: prot[0].clone(), unprotected: hdrs[0].clone(), payload: Some(b"p".to_vec()), signatures: sl.clone() }));
             v.push(RVal::Header(RHeader { counter_signatures: sl.clone(), ..Default::default() }));
             v.push(RVal::Protected(RProtected { original: None, header: RHeader { counter_signatures: sl, ..Default::default() } }));
